@@ -138,6 +138,12 @@ pub fn batch(w: &mut RouterWorld, cfg: &Cfg, ci: usize, kind: u8) {
             let c = make_publish(w, cfg, ci, 0, 1, false, false, 0);
             vec![a, b, c]
         }
+        5 => {
+            // a subscriber publishes on its own subscription and unsubscribes in the same batch
+            let a = make_publish(w, cfg, ci, 0, 1, false, false, 0);
+            let pkid = next_pkid(w, ci);
+            vec![a, Tx::Unsubscribe { pkid, filters: vec![f0] }]
+        }
         6 => {
             // a publish followed, in the same batch, by an unsolicited acknowledgement
             let a = make_publish(w, cfg, ci, 0, 0, false, false, 0);
